@@ -166,7 +166,8 @@ OVERLAY = None
 
 def overlay():
     return {vlib.REPO + "/zz_verif_fsm_test.go": vlib.HGO + "/main/zz_verif_fsm_test.go",
-            vlib.REPO + "/zz_verif_mod_test.go": vlib.HGO + "/main/zz_verif_mod_test.go"}
+            vlib.REPO + "/zz_verif_mod_test.go": vlib.HGO + "/main/zz_verif_mod_test.go",
+            vlib.REPO + "/internal/ircserver/zz_verif_export.go": vlib.HGO + "/ircserver/zz_verif_export.go"}
 
 
 def build_go(tag="fsm"):
